@@ -83,6 +83,7 @@ def run(tier="quick", only_key=None):
                         traj = naive(lambda u: S_call(u), u0, n)
                     want = Stack(([u0] if include_init else []) + traj)
                     if got != want:
+                        _require_modelled(got, key)
                         ok, why = False, f"n={n}: got {got} expected {want}"
                         break
             if ok:
@@ -110,6 +111,7 @@ def run(tier="quick", only_key=None):
                 traj = naive(lambda u: S_call(u), u0, n)
             want = traj[-1] if traj else u0
             if got != want:
+                _require_modelled(got, key)
                 ok, why = False, f"n={n}: got {got} expected {want}"
                 break
         if ok:
@@ -253,6 +255,33 @@ def run(tier="quick", only_key=None):
         rule_text="rule instances = (utility, flag row, state structure) ; each instance covers n in 0..3",
         trusted=["CPython ast", "left-fold semantics of jax.lax.scan", "jax.tree_util.tree_map structure semantics"],
     )
+
+
+MODELLED_OPS = {"call", "row", "rows", "star", "binop", "cmp", "getitem", "scan_final", "scan_stack", "scan_map", "window", "dynamic_slice_in_dim", "dynamic_slice", "roll", "vmap_call"}
+
+
+def _require_modelled(x, key):
+    """a mismatch is a verdict only if every remaining structure has modelled semantics; an array operation the
+    evaluator knows nothing about (jnp.tile of a leaf of unknown rank, ...) means `cannot decide`, not `differs`"""
+    from vf.tens import Unsupported
+
+    def walk(y):
+        if isinstance(y, Term):
+            if (y.op.startswith("jnp.") or y.op == "method") and y.op not in MODELLED_OPS:
+                raise Unsupported(f"{key}: the unrolled structure contains {y.op}(...) whose effect on a leaf of unknown shape is not modelled: {str(y)[:160]}")
+            for z in y.args:
+                walk(z)
+        elif isinstance(y, Stack):
+            for z in y.items:
+                walk(z)
+        elif isinstance(y, (tuple, list)):
+            for z in y:
+                walk(z)
+        elif isinstance(y, dict):
+            for z in y.values():
+                walk(z)
+
+    walk(x)
 
 
 def _as_window(win):
